@@ -406,6 +406,11 @@ def rand_template(rng, modelled=False):
 def rand_schedule(rng, k, length):
     """a list of render indices < k; biased towards bursts and fine interleaving alike"""
     out = []
+    if rng.random() < 0.35:
+        # lock step: every render is suspended at the same place of the template as the others
+        while len(out) < length:
+            out.extend(range(k))
+        return out[:length]
     while len(out) < length:
         i = rng.randrange(k)
         out.extend([i] * rng.choice([1, 1, 1, 2, 3, 5]))
